@@ -228,3 +228,6 @@ mod tests {
         );
     }
 }
+
+#[cfg(kani)]
+pub(crate) mod verif_kani;
